@@ -49,3 +49,8 @@ def run(tier, seed):
     shutil.rmtree(wd, ignore_errors=True)
     fx = build_fixture(wd, 'c18', open(os.path.join(VERIF, 'kernels', 'c18.cpp')).read())
     return execute('C18', tier, seed, cases(tier, fx, seed), ASSUME)
+
+def cases_all(tier):
+    wd = os.path.join(BUILD, 'C18')
+    fx = build_fixture(wd, 'c18', open(os.path.join(VERIF, 'kernels', 'c18.cpp')).read())
+    return cases(tier, fx, 1)
